@@ -122,7 +122,7 @@ def is_init(s):
     return all(x == "idle" for x in s["ti"]) and len(s["linkUp"]) * 2 == len(s["alloc"])
 
 
-def job(name, topo, variant, edges=None, paths=None, ntun=2, patience_ms=4000, max_len=60):
+def job(name, topo, variant, edges=None, paths=None, ntun=2, patience_ms=4000, max_len=60, burn=()):
     """One replay job: a path cover of `edges` (or explicit paths) for the harness."""
     nnodes = nedges = 0
     if paths is None:
@@ -130,29 +130,45 @@ def job(name, topo, variant, edges=None, paths=None, ntun=2, patience_ms=4000, m
         paths, nnodes, nedges = vf.path_cover(es, init_pred=is_init, max_len=max_len)
     states, acts, cpaths = compact(paths)
     return {"name": name, "topo": topo, "variant": variant, "kinds": {str(i + 1): "tcp" for i in range(ntun)},
-            "states": states, "acts": acts, "paths": cpaths, "patience_ms": patience_ms,
+            "states": states, "acts": acts, "paths": cpaths, "patience_ms": patience_ms, "burn": [list(b) for b in burn],
             "_paths": paths, "_nodes": nnodes, "_edges": nedges}
 
 
-def replay(ctx, jobs):
-    """Runs the replay jobs in one harness invocation.  Returns {job name: dict(paths, steps, mismatches, edges, nodes, ms, sample)}."""
-    inp = os.path.join(ctx.work, "relay_jobs_%d.json" % len(os.listdir(ctx.work)))
+def run_all(ctx, jobs, scs, wait_ms=2000, icmp=True):
+    """One harness invocation: frame-level replay jobs, operation-level scenarios and the ICMP scenarios.
+    Returns (replay results by job name, scenario records, icmp summary)."""
+    n = len(os.listdir(ctx.work))
+    inp = os.path.join(ctx.work, "relay_jobs_%d.json" % n)
     vf.write_json(inp, {"jobs": [{k: v for k, v in j.items() if not k.startswith("_")} for j in jobs]})
-    r = ctx.gotest("agent", HFILES, "^TestZZVRelayReplay$", env={"ZZV_IN": inp}, extra_pkgs=XPKGS, timeout=3000)
+    sci = os.path.join(ctx.work, "relay_sc_%d.json" % n)
+    vf.write_json(sci, {"scenarios": scs, "wait_ms": wait_ms})
+    r = ctx.gotest("agent", HFILES, "^TestZZVRelay(Replay|Scenario%s)$" % ("|ICMP" if icmp else ""),
+                   env={"ZZV_IN": inp, "ZZV_SC": sci}, extra_pkgs=XPKGS, timeout=3400)
     if not r.of("done"):
         raise vf.Infra("relay replay harness did not finish:\n" + r.out[-3000:])
     out = {}
     for sm in r.of("summary"):
+        if "job" not in sm:
+            continue
         j = jobs[sm["job"]]
         mm = [m for m in r.of("mismatch") if m["job"] == sm["job"]]
         for m in mm:
             m["_path"] = [st["a"] for st in j["_paths"][m["path"]]["steps"][:m["step"] + 1]]
         cp = j["paths"]
         out[j["name"]] = {"paths": len(cp), "steps": sm["steps"], "mismatches": mm, "edges": j["_edges"], "nodes": j["_nodes"],
-                          "ms": sm["ms"], "sample": [j["acts"][s["a"]] for s in cp[len(cp) // 2]["steps"]][:14] if cp else []}
+                          "ms": sm["ms"], "truncated": any(t["job"] == sm["job"] for t in r.of("truncated")),
+                          "sample": [j["acts"][s["a"]] for s in cp[len(cp) // 2]["steps"]][:14] if cp else []}
     if len(out) != len(jobs):
         raise vf.Infra("relay replay harness: %d of %d jobs reported" % (len(out), len(jobs)))
-    return out
+    recs = r.of("scenario")
+    if len(recs) != len(scs):
+        raise vf.Infra("relay scenario harness: %d of %d scenarios reported:\n%s" % (len(recs), len(scs), r.out[-2000:]))
+    for rec in recs:
+        rec["_ops"] = scs[rec["i"]]["ops"]
+    ic = r.of("icmp-summary")
+    if icmp and not ic:
+        raise vf.Infra("relay ICMP harness produced no summary:\n" + r.out[-2000:])
+    return out, recs, (ic[0] if ic else {})
 
 
 def cex_path(res):
@@ -258,26 +274,6 @@ def scenario(name, topo, kind, ops, ntun=2, idle_ms=200, no_leak=False):
     k = "udp" if kind == "udp" else "tcp"
     return {"name": name, "topo": topo, "kind": kind, "kinds": {str(i + 1): k for i in range(ntun)}, "idle_ms": idle_ms,
             "no_leak": no_leak, "ops": ops}
-
-
-def run_scenarios(ctx, scs, wait_ms=2000):
-    inp = os.path.join(ctx.work, "relay_sc_%d.json" % len(os.listdir(ctx.work)))
-    vf.write_json(inp, {"scenarios": scs, "wait_ms": wait_ms})
-    r = ctx.gotest("agent", HFILES, "^TestZZVRelayScenario$", env={"ZZV_IN": inp}, extra_pkgs=XPKGS, timeout=3000)
-    recs = r.of("scenario")
-    if len(recs) != len(scs) or not r.of("summary"):
-        raise vf.Infra("relay scenario harness: %d of %d scenarios reported:\n%s" % (len(recs), len(scs), r.out[-2000:]))
-    for rec in recs:
-        rec["_ops"] = scs[rec["i"]]["ops"]
-    return recs
-
-
-def run_icmp(ctx):
-    r = ctx.gotest("agent", HFILES, "^TestZZVRelayICMP$", extra_pkgs=XPKGS, timeout=600)
-    sm = r.of("icmp-summary")
-    if not sm:
-        raise vf.Infra("relay ICMP harness produced no summary:\n" + r.out[-2000:])
-    return sm[0]
 
 
 # site names of the finding keys
